@@ -14,7 +14,7 @@ ENGINE = 'E2 explicit-state BFS over process histories, differential against a f
 RULE = ("breadth-first search over process histories: file(S_i) = build and write specification i on fresh objects "
         "(pool engineered to collide in every per-process cache: 0.0/-0.0/0, IDENT 1/1.0/True, same names with other "
         "origins and copy numbers, ZONE vs PARAMETER record type, equal instants in different zones), rewrite of the "
-        "last built objects, mutate-and-rewrite (origin reference, attribute value, index channel units, data, data of another per-row shape, data of another dtype, window), enter/leave "
+        "last built objects, mutate-and-rewrite (origin reference, attribute value, index channel units, data, data of another per-row shape, data of another dtype, window, objects added after the first write), enter/leave "
         "high-compatibility mode; the process-global state is deliberately NOT reset between events of a history; "
         "oracle: the bytes of the last write equal those of a fresh interpreter that builds the final specification "
         "alone; non-trivial = state whose last event wrote a file that was compared")
@@ -65,7 +65,7 @@ def _spec(i):
 
 
 NSPEC = 6
-MUTS = ['origin_ref', 'value', 'units', 'data', 'window', 'shape', 'dtype']
+MUTS = ['origin_ref', 'value', 'units', 'data', 'window', 'shape', 'dtype', 'add']
 EVENTS = [f'F{i}' for i in range(NSPEC)] + ['RW'] + [f'M:{m}' for m in MUTS] + ['HC+', 'HC-']
 
 
@@ -120,6 +120,14 @@ def mutation_ops(m):
         return [], {'data': {'$datadict': {'CH-B': S.arr_spec('float64', [3], [F64['two'], F64['n0'], F64['n0']])}}}
     if m == 'window':
         return [], {'from_idx': 1}
+    if m == 'add':
+        # more objects are added to the already written file: a same-named zone (copy number), a parameter referring
+        # to both zones, a third origin, and a no-format record
+        return [S.op_add('zone', 'ZA', 'X', description='added later'),
+                S.op_add('parameter', 'PA2', 'ADDED', zones=[{'$ref': 'Z0'}, {'$ref': 'ZA'}], values=[1.0, 2.0]),
+                S.op_origin('O2', 'ORIGIN-C'),
+                S.op_add('no_format', 'NFA', 'ADDED-NF'),
+                {'op': 'nfdata', 'lf': 'L0', 'nf': 'NFA', 'data': {'$bytes': '0a0b0c'}}], {}
     if m == 'dtype':
         # data of another dtype for the second channel (values not representable in float32 stay float64 on a fresh run)
         return [], {'data': {'$datadict': {'CH-B': S.arr_spec('float32', [3], [0x3F800001, 0x80000000, 0x7F7FFFFF])}}}
